@@ -364,3 +364,19 @@ def parse_responses(data, heads=None):
         out.append({'status': status, 'version': sl[0].decode(), 'headers': hs, 'body': body})
         i = end
     return out
+
+
+@model('BufRead::fill_buf', '<BufReader as BufRead>::fill_buf', 'BufReader::fill_buf')
+def _(it, a, info):
+    r = deref(it, a[0])
+    tmp = Buf(it.ctx.fresh_arr('fill'), r.cap or 1024, r.cap or 1024, 'array')
+    res = r.read(it, whole(tmp))
+    if res.variant == 'Err':
+        return res
+    r.filled = Slice(tmp, bv(0), res.fields[0])
+    raise Unsupported('BufReader::fill_buf: buffered read-ahead is outside the pipe model of BufReader')
+
+
+@model('BufReader::buffer')
+def _(it, a, info):
+    return whole(Buf.from_bytes(b''))
